@@ -17,13 +17,26 @@ def perpendicular_vector(v):
     if v.z.values == 0:
         return Vector(-v.y.values, v.x.values, 0, unit=v.unit)
     else:
-        return Vector(1.0, 1.0, (-1.0 * (v.x + v.y) / v.z).values, unit=v.unit)
+        # (1, 1, -(x + y) / z) multiplied by |z| > 0: same direction, but no division,
+        # so a z component that is tiny compared to x + y cannot overflow
+        z = v.z.values
+        return Vector(
+            np.abs(z), np.abs(z), -np.sign(z) * (v.x.values + v.y.values), unit=v.unit
+        )
 
 
 def normalize(v):
     """
     Normalize the input vector
     """
+    # Divide by the largest component first: squaring components beyond 1e+-154
+    # overflows / underflows in double precision.
+    scale = np.abs(v.x.values)
+    for c in (v.y, v.z):
+        if c is not None:
+            scale = np.maximum(scale, np.abs(c.values))
+    scale = np.where((scale == 0) | ~np.isfinite(scale), 1.0, scale)
+    v = v / scale
     norm = v.norm
     nvals = norm.values
     if norm.shape:
@@ -287,12 +300,11 @@ class Vector(Base):
 
 class VectorBasis:
     def __init__(self, n, u=None, v=None):
-        self.n = n
-        self.u = perpendicular_vector(self.n) if u is None else u
-        self.v = self.n.cross(self.u) if v is None else v
-        self.n = normalize(self.n)
-        self.u = normalize(self.u)
-        self.v = normalize(self.v)
+        # Normalize before taking products: |n x u| ~ |n| |u| leaves the double
+        # range for components beyond 1e+-77 otherwise.
+        self.n = normalize(n)
+        self.u = normalize(perpendicular_vector(self.n) if u is None else u)
+        self.v = normalize(self.n.cross(self.u) if v is None else v)
         self.n.name = n.name
         if u is not None:
             self.u.name = u.name
